@@ -27,8 +27,8 @@ LAYOUTS = [None,
 
 
 def make_payload(rng, idx, tier):
-    multi = rng.random() < 0.1
-    P, meta = gen_program(rng, tier, bare_main_multi=multi)
+    multi = True
+    P, meta = gen_program(rng, tier)
     meta["layout_seed"] = rng.getrandbits(32)
     meta["bare_main_multi"] = multi
     return program_payload(P, **meta)
@@ -61,6 +61,18 @@ def one(P, std, li, lseed, mons=None):
 
 
 def check(payload):
+    if payload.get("mode") == "source":
+        r = parse_monitored(payload["text"], payload["std"], ignore_comments=payload.get("ic", True))
+        vs = []
+        if r.error is not None:
+            vs.append(viol("rejected", str(r.error)[:160]))
+        else:
+            got = "\n".join(l.strip() for l in str(r.tree).split("\n") if l.strip())
+            if got != payload["expected"]:
+                vs.append(viol(payload.get("key", "token-mismatch"), "regenerated %r, expected %r" % (got, payload["expected"])))
+            elif r.conservation:
+                vs.append(viol("item-conservation", "; ".join(r.conservation)))
+        return {"violations": vs, "digests": [], "monitors": {"statements_compared": 1, "items_conserved": 1}, "tally": {}}
     P = payload_program(payload)
     std = payload["std"]
     lseed = payload.get("layout_seed", 0)
@@ -83,7 +95,8 @@ def check(payload):
             if key not in seen:
                 seen.add(key)
                 viols.append(viol(key, "(%s, layout %d) regenerated text differs from the source by the rewrite %r, "
-                                  "which the property statement does not list" % (std, li, d), layout=li))
+                                  "which the property statement does not list" % (std, li, d), layout=li,
+                                  payload=dict(payload, program=_only_dev(P, d).to_json(), layouts=[0])))
         if v is None:
             if nontrivial(P):
                 digs.append(digest(src, std))
@@ -100,6 +113,7 @@ def check(payload):
         Q = shrink_program(P, still)
         w, qsrc, _ = one(Q, std, li, lseed)
         v["shrunk"] = {"source": qsrc, "detail": w["detail"] if w else None}
+        v["payload"] = dict(payload, program=Q.to_json(), layouts=[li])
         if payload.get("bare_main_multi") and key == "statement-count" and _bare_main_multi(P):
             v["key"] = "main-program-without-program-stmt-drops-other-units"
         viols.append(v)
@@ -109,6 +123,31 @@ def check(payload):
     del rm.bad[:]
     return {"violations": viols, "digests": digs, "tally": tally, "monitors": mons,
             "sample": {"std": std, "source": render(P, 1, lseed)[:1500]}}
+
+
+def _only_dev(P, dev):
+    """Smallest sub-program showing deviation dev: the enclosing unit's opener/closer and the statement."""
+    from ..gen.model import Program, Stmt
+    import copy
+
+    for i, s in enumerate(P.stmts):
+        if ("{?%s|" % dev) in s.text or (dev == "numeric-literal-case" and _has_numcase(s)):
+            keep = [Stmt("program", "program vf_pin"), Stmt.from_json(s.to_json()), Stmt("end_program", "end program vf_pin")]
+            keep[1].label = s.label if s.role is None else None
+            keep[1].cname = None
+            if s.role is not None:
+                continue
+            keep[1].depth = 1
+            return Program(keep, P.std)
+    return P
+
+
+def _has_numcase(s):
+    import re
+    from ..gen.model import to_src
+
+    t = to_src(s.text)
+    return re.search(r"\d[ed][+-]?\d|\b[boz]['\"]", t) is not None
 
 
 def _bare_main_multi(P):
